@@ -530,7 +530,7 @@ func c05callers(c *Ctx) {
 		for _, cs := range engine.Calls(f) {
 			cc := cs.Common()
 			isHandle := false
-			if cc.IsInvoke() && cc.Method.Name() == "handle" && engine.IsNamed(cc.Value.Type(), "internal/state", "Responder") {
+			if cc.IsInvoke() && engine.MethodName(cc.Method) == "handle" && engine.IsNamed(cc.Value.Type(), "internal/state", "Responder") {
 				isHandle = true
 			} else if sc := cc.StaticCallee(); sc != nil && engine.ShortName(sc) == "handle" && engine.RecvNamed(sc) != nil {
 				rn := engine.RecvNamed(sc).Obj().Name()
@@ -1307,7 +1307,7 @@ func (c *Ctx) queueKeepsWhatItIsGiven(rule string) {
 			}
 			for _, cs := range engine.Calls(f) {
 				cc := cs.Common()
-				if cs.Instr.Parent() == f && cc.IsInvoke() && cc.Method.Name() == "handle" && engine.IsNamed(cc.Value.Type(), "internal/state", "Responder") {
+				if cs.Instr.Parent() == f && cc.IsInvoke() && engine.MethodName(cc.Method) == "handle" && engine.IsNamed(cc.Value.Type(), "internal/state", "Responder") {
 					fromPar := engine.AnyBackward(cc.Value, engine.FlowOpts{Loads: true}, func(x ssa.Value) bool {
 						if u, ok := x.(*ssa.UnOp); ok {
 							if ia, ok := u.X.(*ssa.IndexAddr); ok {
